@@ -6,6 +6,16 @@ a list of coordinates) is fixed to each concrete value up to a bound through ``c
 number and coordinate stays a symbolic integer.  Products of symbolic dimensions are non-linear integer terms; z3's
 non-linear arithmetic discharges them for these K (no axioms about products are assumed).
 
+Functions under contract (see the class docstrings): dynal, gen_matching_dynal, gen_ops_maybe_sliced, kron (ownership
+arithmetic), _dim_map_1d / 1dtrim / 1dcyclic / 2d / 2dtrim / 2dcyclic / nd, dim_map, _dim_compressor, dim_compress,
+ikron.gen_ops (core.py); partial_transpose (calc.py, all n); ham_heis, ham_heis.gen_term, ham_ising, ham_XY, ham_XXZ
+(gen/operators.py, all n, with the coverage lemmas heis-*).  ``provider_leaf_model`` (fdx) compares the abstract model of
+the trusted leaves with the real code on a complete finite grid.
+
+Known failures on the unchanged tree (real defects, reproduced natively by ``replay``):
+  * _dim_compressor, cases ``dims>=1``: a subsystem of dimension 1 makes the state machine drop blocks / emit a block of
+    size 0 (finding C15-b);   * dim_map, 1-d lattice with cyclic=True and trim=True: TypeError (finding C15-f).
+
 Abstract values
   * ``Op``     -- a Kronecker factor seen as a *row window*: factor number, rows [lo, hi) of its ``n`` rows, sparse format.
                   ``op.shape[0] = hi - lo``; ``op[slice(a, b), :]`` is rows [lo+a, lo+b) -- the side condition
@@ -80,7 +90,7 @@ class Dynal(Base):
 
     target = f"{CORE}::dynal"
     floor = 4
-    KS = (1, 2, 3, 4, 5)
+    KS = (1, 2, 3, 4)
 
     def cases(self):
         return [NS(name=f"K={k}", K=k) for k in self.KS]
@@ -106,6 +116,8 @@ class Dynal(Base):
         return NS(name=f"K={len(a.bases)}", K=len(a.bases))
 
     def fresh_result(self, cx, a, case):
+        if len(a.bases) not in self.KS:
+            raise Unsupported(f"dynal used with {len(a.bases)} bases: outside the proved structure bound")
         return tuple(cx.Int(f"dyn{i}") for i in range(len(a.bases)))
 
 
@@ -161,6 +173,8 @@ class GenMatchingDynal(Base):
         for lab, c in self.requires(a, None).items():
             cx.oblige(f"call-pre@{node.lineno}:gen_matching_dynal:{lab}", "call-pre", c, node.lineno)
         K = len(a.dims)
+        if K not in self.KS:
+            raise Unsupported(f"gen_matching_dynal used with {K} dims: outside the proved structure bound")
         pairs = []
         for i in range(K):
             p, q = cx.Int(f"md{i}a"), cx.Int(f"md{i}b")
@@ -227,8 +241,7 @@ class OpsBase(Base):
             xs, ys = [cx.iter_concrete(v, node) for v in args]
             return tuple(itertools.zip_longest(xs, ys))
         if name == "slice":
-            lo, hi = (None, args[0]) if len(args) == 1 else args[:2]
-            return ("slice", lo, hi, args[2] if len(args) > 2 else None)
+            return slice(*args)
         if name == "sp.isspmatrix_coo":
             return isinstance(args[0], (Op, KronX)) and args[0].fmt == "coo"
         if name == "issparse":
@@ -243,10 +256,9 @@ class OpsBase(Base):
             return KronX(x.ops, x.a, x.b, fmt, x.kws)
         if name == "__getitem__" and isinstance(args[0], (Op, KronX)):
             x, idx = args
-            if not (isinstance(idx, tuple) and len(idx) == 2 and all(isinstance(s, tuple) and s and s[0] == "slice"
-                                                                      for s in idx)):
+            if not (isinstance(idx, tuple) and len(idx) == 2 and all(isinstance(s, slice) for s in idx)):
                 raise Unsupported(f"subscript {idx!r} of an operator")
-            rs, cs = idx
+            rs, cs = [("slice", s.start, s.stop, s.step) for s in idx]  # (engine: a slice in a subscript is a python slice)
             if cs[1:] != (None, None, None) or rs[3] is not None:
                 raise Unsupported("column slice / stepped row slice of an operator")
             if x.fmt == "coo":
@@ -325,6 +337,8 @@ class GenOpsMaybeSliced(OpsBase):
 
     def apply(self, cx, a, node, case=None):
         a.ops, a.ix = tuple(a.ops), tuple(a.ix)
+        if not (1 <= len(a.ops) <= 3):
+            raise Unsupported("gen_ops_maybe_sliced used outside the proved structure bound")
         for lab, c in self.requires(a, None).items():
             cx.oblige(f"call-pre@{node.lineno}:gen_ops_maybe_sliced:{lab}", "call-pre", c, node.lineno)
         return tuple(self.spec(a))
@@ -344,9 +358,9 @@ class Kron(OpsBase):
     def cases(self):
         out = []
         for k in self.KS:
-            for v, stype in (("dense", None), ("csr", None), ("coo", "csr")):
-                if v == "dense" and k == max(self.KS):
-                    continue  # the dense route differs from csr only in the format calls: covered for smaller K
+            for v, stype in (("dense", None), ("csr", None), ("coo", "csr"), ("coo", None)):
+                if v != "csr" and k == max(self.KS):
+                    continue  # the other routes differ from csr only in the format calls: covered for smaller K
                 out.append(NS(name=f"K={k},{v},stype={stype},ownership", K=k, v=v, stype=stype, own=True))
             out.append(NS(name=f"K={k},csr,full", K=k, v="csr", stype=None, own=False))
         return out
@@ -378,6 +392,8 @@ class Kron(OpsBase):
         ri, rf = a.ownership if a.ownership is not None else (0, D)
         d["in-range"] = And(0 <= ri, rf <= D)
         d["pass-through-options"] = (X.kws == dict(coo_build=a.coo_build, stype=a.stype, parallel=a.parallel))
+        fmts = {o.fmt for o in a.ops}
+        d["format"] = X.fmt == (a.stype if a.stype is not None else "dense" if fmts == {"dense"} else "csr")
         if a.ownership is not None:
             e = cx.env
             d["got-covers-requested"] = And(e["ri_got"] <= ri, rf <= e["rf_got"])
@@ -401,6 +417,11 @@ class Kron(OpsBase):
         full = SUM([o.lo * B[i] for i, o in enumerate(X.ops) if not (isinstance(o.lo, int) and o.lo == 0)]
                    + [t[i] * B[i] for i in range(K)])
         d["row-map"] = Implies(And(X.a <= s, s < X.b), full == ri + (s - X.a))
+        if a.ownership is not None:
+            # the product of the sliced factors, before the final cut, is exactly rows [ri_got, rf_got) of the full product
+            e = cx.env
+            d["sliced-product=rows[ri_got,rf_got)"] = And(PROD(w) == e["rf_got"] - e["ri_got"],
+                                                          Implies(And(0 <= s, s < PROD(w)), full == e["ri_got"] + s))
         d["digits-in-window"] = Implies(And(X.a <= s, s < X.b), And(*[And(0 <= t[i], t[i] < w[i]) for i in range(K)]))
         return d
 
@@ -757,8 +778,8 @@ class DimCompressor(Base):
     def apply(self, cx, a, node, case=None):
         """callee use (proved family only): the specification itself"""
         cx.oblige(f"call-pre@{node.lineno}:_dim_compressor:dims>=2", "call-pre", And(*[n >= 2 for n in a.dims]), node.lineno)
-        if any(is_z3(i) for i in a.inds):
-            raise Unsupported("symbolic inds")
+        if any(is_z3(i) for i in a.inds) or len(a.dims) not in self.KS:
+            raise Unsupported("_dim_compressor used with symbolic inds / outside the proved structure bound")
         return tuple(self.spec(list(a.dims), tuple(a.inds)))
 
 
@@ -940,6 +961,8 @@ def _helper_apply(self, cx, a, node, case=None):
             cx.oblige(f"call-pre@{node.lineno}:{name}:sizes>=1", "call-pre", And(*[s >= 1 for s in szs]), node.lineno)
     if any(len(c) != len(szs) for c in cs):
         raise Unsupported("coordinate / lattice rank mismatch")
+    if len(cs) > 3 or len(szs) > 3 or (len(szs) == 3 and len(cs) > 2):
+        raise Unsupported(f"{name} used outside the proved structure bound")
     out = []
     for c in cs:
         if mode == "cyclic":
